@@ -72,7 +72,7 @@ def _gen_req(rng, c):
     form = "abs" if rng.chance(0.7) else "origin"
     host = rng.choice(HOSTS)
     https = rng.chance(0.3)
-    port = rng.choice([None, None, None, 8080 if not https else 8443])
+    port = rng.choice([None, None, 8080, 8080 if not https else 8443])
     hh = rng.choice([None, host, host, host, host, host + ":81", host + ":81"]) if form == "origin" else host
     return {"c": c, "t": "req", "form": form, "https": https, "host": host, "port": port, "hosthdr": hh,
             "hdrs": _gen_hdrs(rng), "proxy_ok": not rng.chance(0.07)}
